@@ -687,6 +687,11 @@ def check_extras(run, cov, culprit_c2s, culprit_s2c=frozenset()):
     cases += [("if_else_numeric_condition", ca.if_else(x * y - 1, x + 1, y)), ("if_else_symbol_condition", ca.if_else(x, y, 2 * y)),
               ("if_else_zero_numeric_condition", ca.if_else(x + y, x, 0)), ("logic_not_of_number", ca.if_else(ca.logic_not(x + y), x, y)),
               ("logic_and_of_numbers", ca.logic_and(x, y)), ("logic_or_of_numbers", ca.logic_or(x + 2.5, y))]
+    # sums of one-sided conditional terms governed by DIFFERENT conditions (must not be folded into one two-way choice)
+    cases += [("sum_of_conditionals_xy", ca.if_else(x < 0, x + 1, 0) + ca.if_else(y < 0, 0, y - 1)),
+              ("sum_of_conditionals_mixed", ca.if_else(x < y, 2 * x, 0) + ca.if_else(ca.logic_not(y < 1), 3 * y, 0)),
+              ("sum_of_three_conditionals", ca.if_else(x < 0, 1, 0) + ca.if_else(ca.logic_not(y < 0), 2, 0) + ca.if_else(ca.logic_not(x < y), 4, 0)),
+              ("nested_if_else", ca.if_else(x < 0, ca.if_else(y < 0, 1, 2), ca.if_else(y < 1, 3, 4)))]
     cases += [("logic_not", ca.logic_not(x < y)), ("logic_and", ca.logic_and(x < y, y < 1)), ("logic_or", ca.logic_or(x < y, y < 1)), ("twice", 2 * x), ("pow_noninteger_const", x ** 2.5),
               ("pow_symbolic", ca.fabs(x) ** y), ("if_else_zero", ca.if_else(x < y, x, 0))]
     for name, e in cases:
